@@ -8,8 +8,11 @@ T=/var/tmp/seedreg.$$; mkdir -p $T; cp /verif/known_findings.jsonl /verif/proper
 miss=0
 for d in /verif/seeded/*/; do
   id=$(basename $d); prop=${id%-*}
-  if ! git apply --check $d/patch.diff 2>/dev/null; then echo "NOAPPLY   $id"; miss=$((miss+1)); continue; fi
-  git apply $d/patch.diff
+  P=$d/patch.diff
+  # a seed whose lines were later touched by a fix commit carries a hand-rebased copy of the same edit
+  if ! git apply --check $P 2>/dev/null && [ -f $d/patch.rebased.diff ]; then P=$d/patch.rebased.diff; fi
+  if ! git apply --check $P 2>/dev/null; then echo "NOAPPLY   $id"; miss=$((miss+1)); continue; fi
+  git apply $P
   out=$(/verif/bin/fxcheck -prop $prop -verif $T 2>&1); rc=$?
   git checkout -- . 
   if [ $rc -eq 1 ] && echo "$out" | grep -q "^REPORT "; then echo "DETECTED  $id $(echo "$out" | grep '^REPORT ' | head -1 | cut -c1-220)"; else echo "MISSED    $id rc=$rc"; miss=$((miss+1)); fi
